@@ -53,8 +53,8 @@ func init() {
 		a, b := args[0], args[1]
 		h := ex.get(st, "C|uint8", arraySort(SRef, SInt))
 		r := ex.vc.fresh("byteseq", SBool)
-		all := T(fmt.Sprintf("(forall ((i Int)) (! (=> (and (<= 0 i) (< i %s)) (= (select %s (elem %s (+ %s i))) (select %s (elem %s (+ %s i))))) :pattern ((select %s (elem %s (+ %s i))))))",
-			sLen(a).S, h.S, sBase(a).S, sOff(a).S, h.S, sBase(b).S, sOff(b).S, h.S, sBase(a).S, sOff(a).S), SBool)
+		all := T(fmt.Sprintf("(forall ((i Int)) (! (=> (and (<= 0 i) (< i %s)) (= (select %s (at %s i)) (select %s (at %s i)))) :pattern ((select %s (at %s i)))))",
+			sLen(a).S, h.S, a.S, h.S, b.S, h.S, a.S), SBool)
 		ex.vc.assume(tTrue, eq(r, and(eq(sLen(a), sLen(b)), all)), "bytes.Equal")
 		return st, r, true
 	}
